@@ -146,6 +146,28 @@ func mkInput(typ, id string, kind int) controller.Input {
 type dbInst struct {
 	db *runtime.VerifDepDB
 	m  *dbModel
+	// query results handed out earlier, with a snapshot taken at that moment: a result is the caller's
+	// (event delivery walks it after the database lock is released), later mutations must not show in it
+	held []heldResult
+}
+
+type heldResult struct {
+	what string
+	got  any
+	snap string
+}
+
+func (in *dbInst) hold(what string, got any) {
+	in.held = append(in.held, heldResult{what, got, fmt.Sprint(got)})
+}
+
+func (in *dbInst) checkHeld(op string) string {
+	for _, h := range in.held {
+		if now := fmt.Sprint(h.got); now != h.snap {
+			return fmt.Sprintf("result of %s, handed out as %s, reads %s after %q: query results alias the database's own slices", h.what, h.snap, now, op)
+		}
+	}
+	return ""
 }
 
 func (in *dbInst) Close()        {}
@@ -192,6 +214,9 @@ func (in *dbInst) Apply(op string) string {
 	if (err == nil) != want {
 		return fmt.Sprintf("%s: implementation err=%v, model accepts=%v (state %s)", op, err, want, in.m.canon())
 	}
+	if msg := in.checkHeld(op); msg != "" {
+		return msg
+	}
 	return in.queries()
 }
 
@@ -220,6 +245,8 @@ func (in *dbInst) queries() string {
 			if err != nil {
 				return err.Error()
 			}
+			in.hold(fmt.Sprintf("GetDependentControllers(%s/%s)", t, id), deps)
+			deps = append([]string(nil), deps...)
 			sort.Strings(deps)
 			if got, want := fmt.Sprint(deps), fmt.Sprint(in.m.dependents("n", t, id)); got != want {
 				return fmt.Sprintf("dependents of %s/%s: %s, model %s", t, id, got, want)
@@ -228,6 +255,7 @@ func (in *dbInst) queries() string {
 	}
 	for _, c := range []string{"A", "B"} {
 		ins, _ := in.db.GetControllerInputs(c)
+		in.hold("GetControllerInputs("+c+")", ins)
 		if len(ins) != len(in.m.inputs[c]) {
 			return fmt.Sprintf("inputs of %s: %v, model %v", c, ins, in.m.inputs[c])
 		}
@@ -240,6 +268,7 @@ func (in *dbInst) queries() string {
 			}
 		}
 		outs, _ := in.db.GetControllerOutputs(c)
+		in.hold("GetControllerOutputs("+c+")", outs)
 		n := 0
 		for t, h := range in.m.excl {
 			if h == c {
@@ -556,6 +585,103 @@ func runSequence(x *explore.X, seq []int, startAt int) {
 	x.Add("transitions", res.Steps)
 }
 
+// concScenario: a registration (accepted or rejected) runs while change notifications for the same kind are
+// in flight on a started runtime. All schedules up to the bound: event delivery must neither crash nor lose
+// or invent a notification, and the graph must end as the model says.
+func concScenario(reg int, bounds []int) explore.Scenario {
+	ds := decls()
+	d := ds[reg]
+	return explore.Scenario{
+		Name:   fmt.Sprintf("conc/register-%s-vs-delivery", d.name),
+		Desc:   fmt.Sprintf("runtime started with c1 (input %s); a writer creates %s/a and %s/b while %s is registered concurrently; every schedule up to the preemption bound: no goroutine panics, c1 is woken, the graph equals the model, a rejected registration leaves nothing behind", t1, t1, t1, d.name),
+		Bounds: bounds,
+		Body: func(x *explore.X) {
+			ctx, cancel := context.WithCancel(context.Background())
+			st := state.WrapCore(namespaced.NewState(inmem.Build))
+			rt, err := runtime.NewRuntime(st, zap.NewNop(), options.WithMetrics(false))
+			if err != nil {
+				panic(err)
+			}
+			vrt.Branching(false)
+			m := newDBModel()
+			registered := map[string]bool{}
+			c1 := &px.Probe{NameV: "c1", InputsV: ds[0].inputs, OutputsV: ds[0].outputs}
+			if err := rt.RegisterController(c1); err != nil {
+				panic(err)
+			}
+			accept(m, registered, ds[0])
+			runDone := false
+			vrt.GoNamed("runtime.Run", func() { rt.Run(ctx); runDone = true }) //nolint:errcheck
+			vrt.WaitQuiescent()
+			before := c1.Reconciles
+			vrt.Branching(true)
+			var rerr error
+			var newProbe *px.Probe
+			var newQ *px.QProbe
+			vrt.GoNamed("registrar", func() {
+				if d.q {
+					newQ = &px.QProbe{NameV: d.name, SettingsV: controller.QSettings{Inputs: d.inputs, Outputs: d.outputs}}
+					if d.conc == -1 {
+						newQ.SettingsV.Concurrency = optional.Some(uint(0))
+					}
+					newQ.OnMap = func(context.Context, controller.QRuntime, controller.ReducedResourceMetadata) ([]resource.Pointer, error) {
+						return nil, nil
+					}
+					rerr = rt.RegisterQController(newQ)
+				} else {
+					newProbe = &px.Probe{NameV: d.name, InputsV: d.inputs, OutputsV: d.outputs}
+					rerr = rt.RegisterController(newProbe)
+				}
+			})
+			vrt.GoNamed("writer", func() {
+				if err := st.Create(ctx, conformance.NewIntResource(hx.NS, "a", 1)); err != nil {
+					panic(err)
+				}
+				vrt.Yield()
+				if err := st.Create(ctx, conformance.NewIntResource(hx.NS, "b", 1)); err != nil {
+					panic(err)
+				}
+			})
+			vrt.WaitQuiescent()
+			vrt.Branching(false)
+			want := accept(m, registered, d)
+			if (rerr == nil) != want {
+				x.FailKey("conc/verdict", "registration of %s under concurrent delivery: err=%v, model accepts=%v", d.name, rerr, want)
+			}
+			if g, gerr := rt.GetDependencyGraph(); gerr != nil {
+				x.FailKey("conc/graph", "graph export failed: %v", gerr)
+			} else if got := strings.Join(graphEdges(g), "; "); got != m.canon() {
+				x.FailKey("conc/graph", "after concurrent registration of %s (err=%v) the graph is {%s}, expected {%s}", d.name, rerr, got, m.canon())
+			}
+			if c1.Reconciles <= before {
+				x.FailKey("conc/lost-wake", "c1 was not woken by the creation of %s/a and /b while %s was being registered", t1, d.name)
+			}
+			x.Outcome("err=%v c1=%d", rerr != nil, c1.Reconciles-before)
+			// a later write must still be delivered (delivery is alive) to exactly the right controllers
+			b2 := c1.Reconciles
+			nb := 0
+			if newProbe != nil {
+				nb = newProbe.Reconciles
+			}
+			if err := st.Create(ctx, conformance.NewIntResource(hx.NS, "c", 1)); err != nil {
+				panic(err)
+			}
+			vrt.WaitQuiescent()
+			if c1.Reconciles <= b2 {
+				x.FailKey("conc/delivery-dead", "after the concurrent registration of %s a write to %s/c no longer wakes c1", d.name, t1)
+			}
+			if newProbe != nil && rerr != nil && newProbe.Reconciles > nb {
+				x.FailKey("conc/rejected-woken", "rejected controller %s is still notified", d.name)
+			}
+			cancel()
+			vrt.WaitQuiescent()
+			if !runDone {
+				x.FailKey("conc/shutdown", "Run did not return after cancel")
+			}
+		},
+	}
+}
+
 func apiScenario(first int, maxLen int) explore.Scenario {
 	ds := decls()
 	return explore.Scenario{
@@ -621,6 +747,20 @@ func build(tier string) []explore.Scenario {
 	}}
 	for i := range decls() {
 		out = append(out, apiScenario(i, maxLen))
+	}
+	cb := []int{0, 1}
+	if tier == "thorough" {
+		cb = []int{0, 1, 2}
+	}
+	for i, d := range decls() {
+		if d.update || i == 0 || d.name == "c1" {
+			continue
+		}
+		b := cb
+		if tier != "thorough" && d.name == "q2-kind" {
+			b = []int{0} // an accepted queue controller starts workers: bound 1 is the thorough tier's
+		}
+		out = append(out, concScenario(i, b))
 	}
 	return out
 }
